@@ -139,6 +139,27 @@ package banderwagon
 //@ at store 1: assert@prefix benc(row(serialised_points), HP, EL, Eo, i)
 //@ at store 1: assert@chunk fpbytesAt(row(serialised_points), 32*i, 32, encxb(HP[EL[Eo + 2*i]][EL[Eo + 2*i + 1]], HP[EL[Eo + 2*i]][EL[Eo + 2*i + 1] + 1], HP[EL[Eo + 2*i]][EL[Eo + 2*i + 1] + 2]))
 
+//@ func BatchToBytesUncompressed
+//@ props C07
+//@ prelude field curve bytesint batchspec
+//@ let HP = heapFp()
+//@ let EL = row(elements)
+//@ let Eo = off(elements)
+//@ requires forall k int :: 0 <= k && k < len(elements) ==> obj(elements[k]) >= 1 && allocated(elements[k])
+//@ ensures fresh(result) && len(result) == len(elements)
+//@ ensures @C07 bunc(row(result), HP, EL, Eo, len(elements))
+//@ loop 0 invariant 0 <= i && i <= len(elements) && len(zs) == len(elements) && fresh(zs)
+//@ loop 0 invariant forall k int :: 0 <= k && k < i ==> zs[k] == elements[k].inner.Z
+//@ loop 1 invariant 0 <= i && i <= len(elements) && len(zInvs) == len(elements) && fresh(zInvs) && len(uncompressedPoints) == len(elements) && fresh(uncompressedPoints) && obj(uncompressedPoints) != obj(zInvs)
+//@ loop 1 invariant len(zs) == len(elements) && (forall k int :: 0 <= k && k < len(elements) ==> zs[k] == elements[k].inner.Z)
+//@ loop 1 invariant forall k int :: 0 <= k && k < len(elements) ==> zInvs[k] == fp_inv(zs[k])
+//@ loop 1 invariant bunc(row(uncompressedPoints), HP, EL, Eo, i)
+//@ at loopbody 1: ghost UPp := row(uncompressedPoints)
+//@ at call copy 1: assert@upframe forall j int :: 0 <= j && j < 64*i ==> row(uncompressedPoints)[j] == UPp[j]
+//@ at call copy 1: assert@prefix bunc(row(uncompressedPoints), HP, EL, Eo, i)
+//@ at call copy 1: assert@xchunk fpbytesAt(row(uncompressedPoints), 64*i, 32, HP[EL[Eo + 2*i]][EL[Eo + 2*i + 1]] * fp_inv(HP[EL[Eo + 2*i]][EL[Eo + 2*i + 1] + 2]))
+//@ at call copy 1: assert@ychunk fpbytesAt(row(uncompressedPoints), 64*i + 32, 32, HP[EL[Eo + 2*i]][EL[Eo + 2*i + 1] + 1] * fp_inv(HP[EL[Eo + 2*i]][EL[Eo + 2*i + 1] + 2]))
+
 // ---- precomputed-table scalar multiplication (C05): signed-window recoding against the table invariant.
 // S (ghost) is the sum of the signed digits consumed so far times their weights; the invariant is
 //   S + carry * 2^(64*l + ws*w) == (scalar mod 2^(64*l)) + (scalar[l] mod 2^(ws*w)) * 2^(64*l)   and   *res == res0 + S * base.
